@@ -55,6 +55,16 @@ fn view_of<S: ShortGroupSignatureScheme>(p: &Presentation<S>) -> View {
                     out.g2.push((name, q));
                 }
             }
+            // opaque proof blobs (bulletproofs): every aligned 48-byte chunk that is a compressed G1 point
+            LeafKind::Other if path.last().map(|s| s == "proof" || s == "range_proof").unwrap_or(false) => {
+                if let Some(b) = leaf.as_str().and_then(|t| hex::decode(t).ok()) {
+                    for (k, ch) in b.chunks_exact(48).enumerate() {
+                        if let Some(q) = <[u8; 48]>::try_from(ch).ok().and_then(|a| Option::<G1Affine>::from(G1Affine::from_compressed(&a))) {
+                            out.g1.push((format!("{}#{}", name, k), G1Projective::from(q)));
+                        }
+                    }
+                }
+            }
             _ => {}
         }
     }
@@ -303,7 +313,7 @@ fn other_value(c: &ClaimData, rng: &mut Rng) -> ClaimData {
 
 fn c07_suite<S: ShortGroupSignatureScheme>(em: &mut Emitter, base: &mut Rng, suite: &str) {
     let off = if suite == "bbs" { 0 } else { 1 };
-    let kinds = ["commitment", "commitment+range", "verenc", "verenc+scalar", "ved", "revocation", "membership", "signature-only", "equality", "equality2", "commitment-twice", "commitment-two-claims"];
+    let kinds = ["commitment", "commitment+range", "verenc", "verenc+scalar", "ved", "revocation", "membership", "signature-only", "equality", "equality2", "commitment-twice", "commitment-two-claims", "commitment+range-twice"];
     for k in 0..em.n(20, 200) {
         if !em.mine(2 * k + off) {
             continue;
@@ -318,7 +328,7 @@ fn c07_suite<S: ShortGroupSignatureScheme>(em: &mut Emitter, base: &mut Rng, sui
         let mut mix = Mix { n_creds: if kind.starts_with("equality") { 2 } else { 1 }, n_claims, age: rng.range(18, 80), ..Default::default() };
         // the hidden claim under attack
         let ci = match kind {
-            "commitment+range" => 2,
+            "commitment+range" | "commitment+range-twice" => 2,
             "revocation" => 0,
             "membership" | "equality" | "equality2" => 1,
             _ => 1 + rng.below(n_claims as u64 - 1) as usize,
@@ -329,6 +339,10 @@ fn c07_suite<S: ShortGroupSignatureScheme>(em: &mut Emitter, base: &mut Rng, sui
             "commitment+range" => {
                 mix.commitment = Some(2);
                 mix.range = Some((Some(mix.age - 10), Some(mix.age + 10)));
+            }
+            "commitment+range-twice" => {
+                mix.commitment = Some(2);
+                mix.range = Some((Some(mix.age - 10), None));
             }
             "verenc" => mix.verenc = Some((ci, false)),
             "verenc+scalar" => mix.verenc = Some((ci, true)),
@@ -375,6 +389,13 @@ fn c07_suite<S: ShortGroupSignatureScheme>(em: &mut Emitter, base: &mut Rng, sui
         if kind == "commitment-twice" {
             scn.add_second_commitment(rng, ci, false);
         }
+        // two range statements over one commitment ("age >= a" and "age <= b" written as two requirements)
+        if kind == "commitment+range-twice" {
+            let mut stmts: Vec<Statements<S>> = scn.schema.statements.values().cloned().collect();
+            stmts.push(RangeStatement { id: "rng1".into(), reference_id: "com0".into(), signature_id: scn.sig_ids[0].clone(), claim: 2, lower: None, upper: Some(mix.age as isize + 10) }.into());
+            scn.stmt_ids.push(("rng1".into(), "range".into()));
+            scn.schema = credx::presentation::PresentationSchema::new_with_id(&stmts, &scn.schema.id);
+        }
         if kind == "commitment-two-claims" {
             let cj = (1..n_claims).find(|j| *j != ci && !mix.disclosed[0].contains(&LABELS[*j].to_string()));
             match cj {
@@ -405,6 +426,17 @@ fn c07_suite<S: ShortGroupSignatureScheme>(em: &mut Emitter, base: &mut Rng, sui
         // the other claims of the scenario's credentials (side knowledge / enumerable values)
         let others: Vec<Scalar> = scn.bundles.iter().flat_map(|b| b.credential.claims.iter().enumerate().filter(|(i, _)| *i != ci).map(|(_, c)| c.to_scalar()).collect::<Vec<_>>()).collect();
         let mut found = distinguishers(&view, &gens, &m0, &m1, &others);
+        // a group element transmitted at two places: two sub-proofs drew the same randomness
+        for (i, (an, a)) in view.g1.iter().enumerate() {
+            if bool::from(a.is_identity()) || gens.iter().any(|(_, q)| q == a) {
+                continue;
+            }
+            for (bn, b) in view.g1.iter().skip(i + 1) {
+                if a == b {
+                    found.push(format!("randomness-repeated-inside-presentation:{}:{}", an, bn));
+                }
+            }
+        }
         found.extend(byte_distinguishers(&view, &gens, &m0, &m1));
         if let Some(g) = scn.schema.statements.values().find_map(|s| match s {
             Statements::VerifiableEncryptionDecryption(x) => Some(x.message_generator),
@@ -751,7 +783,7 @@ fn c12_suite<S: ShortGroupSignatureScheme>(em: &mut Emitter, base: &mut Rng, sui
             d.retain(|l| l != "id");
         }
         // every third pair: two commitment statements with the same generators on two hidden claims (the holders differ in one of them)
-        let two_commitments = k % 3 == 1 && mix.n_claims >= 4;
+        let two_commitments = k % 3 == 1 && mix.n_claims >= 4 && k % 5 != 4;
         if two_commitments {
             mix.commitment = Some(2);
             mix.range = None;
@@ -764,6 +796,12 @@ fn c12_suite<S: ShortGroupSignatureScheme>(em: &mut Emitter, base: &mut Rng, sui
             if matches!(mix.ved, Some(2) | Some(3)) {
                 mix.ved = None;
             }
+        }
+        // every fifth pair: nothing is simply hidden — every claim is disclosed except the identifier, which a revocation
+        // statement speaks about (no proof-specific blinding anywhere in the signature proof)
+        if k % 5 == 4 {
+            let n = mix.n_claims;
+            mix = Mix { n_creds: 1, n_claims: n, age: mix.age, revocation: true, disclosed: vec![LABELS[1..n].iter().map(|l| l.to_string()).collect()], ..Default::default() };
         }
         // the disclosed claims are equal for both holders by construction below
         let mut scn_a = Scn::<S>::build(rng, &mix);
